@@ -295,7 +295,8 @@ def run_unit(unit, case, tier="quick"):
                 extra_as = [z3.BoolVal(False) if isinstance(x, bool) else x for x in extra_as]
                 ob.add(solve.prove(assum + extra_as, gz, gopts.get("timeout", timeout),
                                     dict(gopts.get("solver_opts", unit.solver_opts) or {}, rewrites=gopts.get("rewrites"),
-                                         ring_only=gopts.get("ring_only", False), try_eval=gopts.get("try_eval", False))), ptag)
+                                         ring_only=gopts.get("ring_only", False), try_eval=gopts.get("try_eval", False),
+                                         abstract_nl=gopts.get("abstract_nl", False))), ptag)
         # cover: at least one returning path is feasible
         cover = ObResult(f"{uname}:cover")
         ncov = 0
@@ -317,7 +318,7 @@ def run_unit(unit, case, tier="quick"):
             if key in seen:
                 continue
             seen.add(key)
-            v = solve.prove(assum, so.cond, timeout, unit.solver_opts)
+            v = solve.prove(assum, so.cond, timeout, dict(unit.solver_opts or {}, **(getattr(so, "opts", None) or {})) or None)
             v.reason = (v.reason + f" {so.kind} at {so.where}").strip()
             safety.add(v, so.kind)
         if not side:
